@@ -476,6 +476,55 @@ JDType(ev, reg) ==
             ELSE LET own == ExpectDen(ev, "poly", DCast(DArith(ev.op, a.d, b.d), target))
                  IN IF own # "ok" THEN own ELSE IF ev.res[1].dtype # target THEN "dtype" ELSE "ok"
 
+\* -------------------------------------------------------- C05 polynomial division
+\* ev.args = <<dividend, divisor>> (+ <<cofactor>> when the dividend was built as cofactor * divisor)
+\* ev.fn: "divmod" | "divide" | "remainder"; ev.digs: digest of the running dividend at every loop iteration
+\* (from the loop observer); ev.capped: the observer stopped the loop at the iteration cap
+DEqualClose(x, y, bits) ==
+  /\ x.shape = y.shape
+  /\ \A k \in 1..Len(x.el) : x.el[k] = y.el[k] \/ EClose(x.el[k], y.el[k], bits)
+UniDeg(f) == IF f = EZero THEN -1 ELSE MDeg(MMax(DOMAIN f, <<>>, TRUE, FALSE))
+JPolyDiv(ev, reg) ==
+  LET n == reg[ev.args[1]].d  d == reg[ev.args[2]].d
+  IN IF ~BroadcastOK2(n.shape, d.shape) THEN "ok"
+     ELSE IF ev.capped \/ ev.out = "timeout" THEN "nontermination"
+     ELSE IF ~Distinct(ev.digs) THEN "nontermination_repeat"
+     ELSE IF ev.out # "ret" THEN "raised"
+     ELSE LET t == BShape2(n.shape, d.shape)
+              nb == DBroadcast(n, t)  db == DBroadcast(d, t)
+              hasQ == ev.fn \in {"divmod", "divide"}
+              hasR == ev.fn \in {"divmod", "remainder"}
+              qv == ev.res[1]
+              rv == IF ev.fn = "divmod" THEN ev.res[2] ELSE ev.res[1]
+          IN IF Len(ev.res) # (IF ev.fn = "divmod" THEN 2 ELSE 1) THEN "arity"
+             ELSE IF \E i \in 1..Len(ev.res) : ~HasDen(ev.res[i]) \/ ev.res[i].kind # "poly" THEN "type"
+             ELSE IF \E i \in 1..Len(ev.res) : ev.res[i].shape # t THEN "shape"
+             ELSE LET q == Den(qv)  r == Den(rv)
+                  IN IF ev.fn = "divmod" /\ ~DEqualClose(DAdd(DMul(q, db), r), nb, 40) THEN "value_identity"
+                     ELSE IF \E k \in 1..Len(db.el) :
+                               /\ db.el[k] # EZero /\ EIsConst(db.el[k])      \* non-zero constant divisor
+                               /\ \/ (hasQ /\ ~(EMul(q.el[k], db.el[k]) = nb.el[k] \/ EClose(EMul(q.el[k], db.el[k]), nb.el[k], 40)))
+                                  \/ (hasR /\ r.el[k] # EZero)
+                          THEN "value_constant_divisor"
+                     ELSE IF Len(ev.args) = 3 /\          \* dividend = cofactor * divisor: r = 0, q = cofactor
+                             LET c == DBroadcast(reg[ev.args[3]].d, t)
+                             IN \E k \in 1..Len(db.el) : db.el[k] # EZero /\
+                                   ((hasR /\ r.el[k] # EZero) \/ (hasQ /\ ~(q.el[k] = c.el[k] \/ EClose(q.el[k], c.el[k], 40))))
+                          THEN "value_exact_multiple"
+                     ELSE IF hasR /\ Cardinality(DNames(nb) \cup DNames(db)) <= 1 /\
+                             \E k \in 1..Len(db.el) : db.el[k] # EZero /\ UniDeg(r.el[k]) >= UniDeg(db.el[k])
+                          THEN "value_degree"
+                     ELSE "ok"
+\* two registers hold the same value (spellings of one operation)
+JSame(ev, reg) ==
+  LET a == reg[ev.args[1]]  b == reg[ev.args[2]]
+  IN IF a.d.shape # b.d.shape THEN "shape"
+     ELSE IF a.d.el # b.d.el THEN "value"
+     ELSE IF a.v.kind # b.v.kind THEN "type"
+     ELSE IF a.v.dtype # b.v.dtype THEN "dtype"
+     ELSE IF a.v.kind = "poly" /\ a.v.names # b.v.names THEN "names"
+     ELSE "ok"
+
 \* -------------------------------------------------------------- C14 options
 OptAct(ev) == ev.act \in {"set_options", "enter", "exit", "exit_exc", "get_mutate", "get_defaults"}
 NextOpts(ev, opts, ctx) ==
@@ -497,7 +546,7 @@ JOption(ev, opts, ctx) ==
     [] ev.act = "get_defaults" -> IF ev.out = "ret" /\ ev.seen = DefaultOptions THEN "ok" ELSE "defaults"
 
 \* ------------------------------------------------------------------ dispatch
-NeedsDen(ev) == ev.act \in {"copyto", "rebuild", "align", "arith", "unary", "move", "reduce", "call", "deriv", "compare", "extreme", "lead", "tonumpy", "todict", "decompose", "set_dimensions"}
+NeedsDen(ev) == ev.act \in {"polydiv", "same", "copyto", "rebuild", "align", "arith", "unary", "move", "reduce", "call", "deriv", "compare", "extreme", "lead", "tonumpy", "todict", "decompose", "set_dimensions"}
 Own(ev, reg, opts, ctx) ==
   CASE ev.act = "new" -> "ok"
     [] \E i \in 1..Len(ev.args) : ev.args[i] \notin 1..Len(reg) -> "machinery_operand"
@@ -506,6 +555,8 @@ Own(ev, reg, opts, ctx) ==
     [] ev.act = "unary" -> JUnary(ev, reg)
     [] ev.act = "move" -> JMove(ev, reg, opts)
     [] ev.act = "reduce" -> JReduce(ev, reg)
+    [] ev.act = "polydiv" -> JPolyDiv(ev, reg)
+    [] ev.act = "same" -> JSame(ev, reg)
     [] ev.act = "dtype" -> JDType(ev, reg)
     [] ev.act = "any" -> "ok"          \* no claim about the result: only the global clauses are evaluated
     [] ev.act = "copyto" -> JCopyTo(ev, reg)
